@@ -1782,7 +1782,10 @@ func FuzzIncomingFrames(f *testing.F) {
 	for _, cfg := range []byte{0, 1, 2, 3, 128, 129, 128 | 32, 129 | 32, 4 | 64, 5 | 64, 128 | 8 | 64, 129 | 16 | 64} {
 		for _, a := range wellFormed {
 			f.Add(cfg, a)
-			for _, b := range wellFormed {
+			if cfg&^129 != 0 {
+				continue // pairs only for the four plain configurations: the baseline run is slow
+			}
+			for _, b := range [][]byte{wellFormed[0], wellFormed[4], wellFormed[6]} {
 				f.Add(cfg, append(append([]byte(nil), a...), b...))
 			}
 		}
